@@ -455,7 +455,15 @@ func (w *worker[T, JobType]) goListenToContext() {
 	go func(c context.Context) {
 		<-c.Done()
 
-		w.Stop()
+		// Restart cancels the context of the previous run and installs a new one:
+		// only the listener of the current context may stop the worker
+		w.mx.RLock()
+		current := w.ctx == c
+		w.mx.RUnlock()
+
+		if current {
+			w.Stop()
+		}
 	}(w.ctx)
 }
 
